@@ -38,6 +38,15 @@ def coo_matrix(interp, args, kwargs, node):
                z3.ForAll([i], z3.Implies(z3.And(0 <= i, i < n),
                                          z3.And(to_int(rat(i)) >= 0, to_int(rat(i)) < nr, to_int(cat(i)) >= 0, to_int(cat(i)) < nc))),
                kind="call-pre", line=line)
+    dt = kwargs.get("dtype")
+    if dt is not None:
+        if isinstance(dt, VType) and dt.name == "int":
+            # an integer dtype truncates the stored values
+            dat0 = dat
+            dat = lambda t: VReal(z3.ToReal(z3.ToInt(to_real(dat0(t)))))
+            ctx.assumed.add("extern:scipy.sparse.coo_matrix(dtype=int) truncates the data to integers (non-negative data: floor)")
+        elif not (isinstance(dt, VType) and dt.name == "float"):
+            raise Unsupported("coo_matrix dtype")
     M = ctx.fresh_fun("M", z3.IntSort(), z3.IntSort(), z3.RealSort())
     w = ctx.fresh_fun("Mw", z3.IntSort(), z3.IntSort(), z3.IntSort())
     r, c, t = z3.Int("r!m"), z3.Int("c!m"), z3.Int("t!m")
@@ -134,3 +143,62 @@ def squareform(interp, args, kwargs, node):
         from . import vec
         return interp.born(VList(SymSeq((m * (m - 1)) / 2, lambda k: VReal(f(k), True), vec.T_RealT(np=True)), "ndarray"))
     return interp.born(E.opaque(interp, "scipy.spatial.distance.squareform", args, kwargs, "ndarray"))
+
+
+# ---- scipy.special.zeta, scipy.optimize.minimize_scalar -------------------------------------------------------
+zeta_f = z3.Function("zeta", z3.RealSort(), z3.RealSort(), z3.RealSort())
+
+
+@extern("scipy.special.zeta")
+def sp_zeta(interp, args, kwargs, node):
+    a, q = to_real(args[0]), to_real(args[1])
+    ctx = interp.ctx
+    if ("ax", "zeta") not in ctx.axioms_added:
+        ctx.axioms_added.add(("ax", "zeta"))
+        u, w = z3.Real("u!z"), z3.Real("w!z")
+        ctx.assume_global(z3.ForAll([u, w], z3.Implies(z3.And(u > 1, w > 0), zeta_f(u, w) > 0), patterns=[zeta_f(u, w)]),
+                          "extern:scipy.special.zeta(a, q) is the Hurwitz zeta function (uninterpreted; positive for a > 1, q > 0)")
+    r = zeta_f(a, q)
+    return VReal(r, True)
+
+
+@S.spec("zeta")
+def _zeta_spec(interp, args, kwargs, node):
+    return sp_zeta(interp, args, kwargs, node)
+
+
+@extern("scipy.optimize.minimize_scalar")
+def sp_minimize_scalar(interp, args, kwargs, node):
+    """minimize_scalar(f, bounds=(lo, hi), method='bounded'): an OptimizeResult r; when r.success, lo <= r.x <= hi and
+    f(r.x) <= f(a) for every a in [lo, hi].  (scipy's bounded Brent search is a LOCAL optimiser: global optimality is an
+    assumption about scipy and about the shape of f -- for the power-law likelihood the objective is convex in alpha.)"""
+    ctx = interp.ctx
+    f = args[0]
+    method = kwargs.get("method")
+    bounds = kwargs.get("bounds")
+    if method is None or concrete_str(method) != "bounded" or bounds is None:
+        raise Unsupported("minimize_scalar: only method='bounded' with bounds is modelled")
+    lo, hi = [to_real(interp.seq_at(bounds, z3.IntVal(i))) for i in (0, 1)]
+    extra = set(kwargs) - {"method", "bounds"}
+    if extra:
+        raise Unsupported(f"minimize_scalar options {sorted(extra)}")
+    short = (interp.current_qualname or "").replace("pyrepseq.", "")
+    if not interp.spec_mode:
+        ctx.oblige(f"{short}/call-pre[scipy.optimize.minimize_scalar.bounds-ordered]@L{getattr(node, 'lineno', '?')}", lo <= hi,
+                   kind="call-pre", line=getattr(node, "lineno", None))
+    a = ctx.fresh("alpha_any", z3.RealSort())
+    mark = len(ctx.pc)
+    ctx.assume(z3.And(lo <= a, a <= hi))
+    fa = to_real(interp.call(f, [VReal(a, True)], {}, node))
+    # facts learnt while evaluating f(a) stay (they are about uninterpreted functions at a), generalised over a below
+    xopt = ctx.fresh("x_opt", z3.RealSort())
+    success = ctx.fresh("opt_success", z3.BoolSort())
+    fx = z3.substitute(fa, (a, xopt))
+    b = z3.Real("a!opt")
+    ctx.assume(z3.Implies(success, z3.And(lo <= xopt, xopt <= hi,
+                                          z3.ForAll([b], z3.Implies(z3.And(lo <= b, b <= hi), fx <= z3.substitute(fa, (a, b)))))),
+               "extern:scipy.optimize.minimize_scalar(method='bounded'): on success the result minimises the objective over the bounds "
+               "(scipy finds a local minimum; equal to the global one for a convex objective such as the negative power-law likelihood)")
+    r = VObj("OptimizeResult", None, {"x": VReal(xopt, True), "success": VBool(success)})
+    r.objective = (a, fa)
+    return interp.born(r)
